@@ -7,5 +7,7 @@ CONSTANTS
   FrameChunks = 2
   MaxMig = 2
   Serial = TRUE
+  Requesters = {1, 2, 3}
+  AcceptGuard = "handling"
 INVARIANTS TypeOK ContentsCopied NothingElseChanged CompleteOnce OneAtATime RoutedBack InRange AllServed
 CHECK_DEADLOCK FALSE
